@@ -70,4 +70,23 @@ run)
   git -C /repo checkout -- .
   echo "CAUGHT_BY:$caught"
   ;;
+eval)
+  # tools/seeded.sh eval <patch.diff> <check ids...> : apply the patch to a private worktree
+  # (/tmp/eval_wt) and run the quick checks against it through VERIF_REPO; /repo is untouched.
+  patch="$1"; shift
+  EV=/tmp/eval_wt
+  if [ ! -d "$EV" ]; then git -C /repo worktree add -q --detach "$EV" HEAD || exit 2; fi
+  git -C "$EV" checkout -q --detach "$(git -C /repo rev-parse HEAD)" && git -C "$EV" checkout -q -- . && git -C "$EV" clean -qfd -e target
+  git -C "$EV" apply "$patch" || { echo "patch does not apply"; exit 2; }
+  caught=""
+  for c in "$@"; do
+    out=$(VERIF_REPO="$EV" /verif/check "$c" quick 2>&1); rc=$?
+    sigs=$(echo "$out" | grep -E "^  signature=" | sed 's/ detail=.*//; s/  signature=//' | sort | uniq -c | sort -rn | head -3 | tr '\n' ';')
+    echo "$c rc=$rc $sigs"
+    [ $rc -eq 1 ] && caught="$caught $c"
+    [ $rc -ge 2 ] && echo "$out" | grep -E "^INCONCLUSIVE" | head -2 | cut -c1-200
+  done
+  git -C "$EV" checkout -q -- .
+  echo "CAUGHT_BY:$caught"
+  ;;
 esac
